@@ -14,21 +14,53 @@
 From MW Require Import Base Store.
 
 (** * Configuration *)
+
+(** the notices of the welcome message: server.make_server builds the dict
+    from --motd, --advertise-version, --signal-error; an absent option is an
+    absent key *)
+Record welcome_cfg := mkWelcome
+  { w_motd : option string;
+    w_version : option string;       (* current_cli_version *)
+    w_error : option string }.
+
 Record config := mkCfg
   { allow_list : bool;
     usage_on : bool;
     blur : option Z;     (* blur interval in ticks; None = no blur *)
     exp : Z;             (* CHANNEL_EXPIRATION_TIME in ticks *)
-    period : Z           (* EXPIRATION_CHECK_PERIOD in ticks *) }.
+    period : Z;          (* EXPIRATION_CHECK_PERIOD in ticks *)
+    welcome : welcome_cfg  (* Server.get_welcome() *) }.
+
+(** * Commands: the JSON object, reduced to the keys the server reads.
+    [None] = key absent.  Unknown extra keys are ignored by the server; the
+    harness checks that on the implementation side through the `orig` echo. *)
+Inductive mtype :=
+| TPing | TBind | TList | TAllocate | TClaim | TRelease | TOpen | TAdd | TClose
+| TUnknown.
+
+Record command := mkCmd
+  { m_type : option mtype;
+    m_id : option string;          (* msg.get("id"): absent and null both read None *)
+    m_appid : option string;
+    m_side : option string;
+    m_nameplate : option string;
+    m_mailbox : option string;
+    m_phase : option string;
+    m_body : option string;
+    m_mood : option string;        (* msg.get("mood") *)
+    m_ping : option Z;
+    m_client_version : option (option string * option string) }.
 
 (** * Frames *)
 Inductive err_kind := ErrCrowded | ErrReclaimed | ErrOther.
 
+(** every frame also carries [server_tx], the time of sending: that is the
+    [tx] field of its log entry below *)
 Inductive frame :=
-| FWelcome
+| FWelcome (w : welcome_cfg)
 | FAck (id : option string)
 | FPong (v : Z)
-| FError (k : err_kind)
+| FError (k : err_kind) (orig : command)   (* error=e._explain, orig=msg *)
 | FNameplates (l : list string)
 | FAllocated (n : string)
 | FClaimed (m : string)
@@ -55,7 +87,7 @@ Definition new_conn : conn_state :=
 Inductive log_entry :=
 | LCommitChan (snapshot : chan_db)
 | LCommitUsage (snapshot : usage_db)
-| LFrame (c : nat) (f : frame) (clean : bool).
+| LFrame (c : nat) (f : frame) (clean : bool) (tx : Z).   (* tx: server_tx = time.time() *)
 
 (** * State *)
 Record state := mkState
@@ -187,7 +219,7 @@ Definition is_clean (s : state) : bool :=
 (** ** Frames *)
 
 Definition send (c : nat) (f : frame) : M unit :=
-  fun s => Ok tt (set_log s (LFrame c f (is_clean s) :: log s)).
+  fun s => Ok tt (set_log s (LFrame c f (is_clean s) (now s) :: log s)).
 
 (** ** Connections and subscriptions *)
 
